@@ -359,7 +359,7 @@ def gen_index_crossing(rnd, sid, upto=12):
 def gen_gz_content(rnd, sid, big):
     """C08 content campaign: what gets compressed ranges from one byte to MiBs, compressible or not"""
     s = Scenario(sid, "app.log", "rot", 0, 0, 4 | 1, now=(2, 0))      # startup rotation compresses whatever is there
-    kind = rnd.choice(["tiny", "lines", "random", "zeros"] + (["huge"] if big else []))
+    kind = "huge" if big == "only" else rnd.choice(["tiny", "lines", "random", "zeros"] + (["huge"] if big else []))
     if kind == "tiny":
         data = b"\n" * rnd.randint(1, 3)
     elif kind == "lines":
@@ -369,7 +369,9 @@ def gen_gz_content(rnd, sid, big):
     elif kind == "zeros":
         data = b"\0" * rnd.choice([1, 8192, 65536, 300000])
     else:
-        data = rnd.randbytes(rnd.choice([1 << 20, (1 << 22) + 17]))
+        # beyond any plausible block size of a chunked implementation (64 KiB, 1 MiB), compressible or not
+        n = rnd.choice([(1 << 20) + 1, (1 << 21) + 4097, (1 << 22) + 17])
+        data = rnd.randbytes(n) if rnd.random() < 0.5 else (b"".join(b"line %d of a long day\n" % i for i in range(n // 24 + 1)))[:n]
     # the planted active file is one "record" of arbitrary bytes (it must end the record with the newline
     # the projection expects, so the planted content is payload + newline)
     s.nrec += 1
